@@ -161,6 +161,19 @@ fn sha2_digest(b: &[u8]) -> Vec<u8> {
     sha2::Sha256::digest(b).to_vec()
 }
 
+/// For packages the builder made: all digest tags must be there (for every compression, "none" included), and be true.
+pub fn oracle_true_digests_built(sub: &str, x: &[u8], rank: u64, case: &dyn Fn() -> Value, acc: &mut Acc) -> bool {
+    if let Some((_, sig, hdr, _)) = scan(x) {
+        let has = |h: &vlib::refhdr::RawHeader, tag: u32| h.entries.iter().any(|e| e.tag == tag);
+        for (what, present) in [("header SHA-256 (signature header)", has(&sig, SIGTAG_SHA256)), ("payload digest", has(&hdr, TAG_PAYLOADDIGEST)), ("payload digest algorithm", has(&hdr, TAG_PAYLOADDIGESTALGO)), ("alternate payload digest", has(&hdr, TAG_PAYLOADDIGESTALT))] {
+            if !present {
+                acc.viol(Violation::new(sub, format!("a package made by the builder records no {}", what), case()).sig("clause", "digest-not-recorded").sig("which", what).rank(rank));
+            }
+        }
+    }
+    oracle_true_digests(sub, x, rank, case, acc)
+}
+
 /// The four kinds of digest of an emitted package, recomputed independently.
 pub fn oracle_true_digests(sub: &str, x: &[u8], rank: u64, case: &dyn Fn() -> Value, acc: &mut Acc) -> bool {
     let Some((_, sig, hdr, l)) = scan(x) else {
@@ -482,7 +495,7 @@ fn source_rewrite_sub(ctx: &Ctx) -> SubReport {
             Ok(Err(e)) => return acc.viol(Violation::new("source-rewrite", format!("build failed: {}", e), case()).sig("clause", "build-fails").rank(i)),
             Err(p) => return acc.viol(panic_violation("source-rewrite", &p, case()).rank(i)),
         };
-        if !oracle_true_digests("source-rewrite", &bytes, i, &case, acc) {
+        if !oracle_true_digests_built("source-rewrite", &bytes, i, &case, acc) {
             return;
         }
         acc.nontrivial += 1;
@@ -548,7 +561,7 @@ fn typed_and_stale_sub(ctx: &Ctx) -> SubReport {
                     let case = || json!({"entry_kind": kname, "source_bytes": content.len(), "spec": s.to_json()});
                     match catch(|| s.build_bytes(&env)) {
                         Ok(Ok((_, bytes))) => {
-                            if oracle_true_digests("typed-sources", &bytes, idx, &case, &mut acc) {
+                            if oracle_true_digests_built("typed-sources", &bytes, idx, &case, &mut acc) {
                                 acc.nontrivial += 1;
                                 acc.count(kname);
                             }
@@ -632,7 +645,7 @@ pub fn run(ctx: &Ctx) -> i32 {
     let s_sign = signers_sub(ctx);
     let s_rw = source_rewrite_sub(ctx);
     let s2 = crate::corpus::run_corpus(ctx, "corpus", "oracle: header SHA-256, payload digest, alternate (uncompressed) payload digest and per-file digests recomputed after independent decompression", &|sub, it, rank, acc| {
-        if oracle_true_digests(sub, &it.bytes, rank, &|| it.desc.clone(), acc) {
+        if oracle_true_digests_built(sub, &it.bytes, rank, &|| it.desc.clone(), acc) {
             acc.nontrivial += 1;
             if rank % 1499 == 0 {
                 acc.sample(rank, || json!({"corpus_item": it.spec.name, "compression": format!("{:?}", it.spec.compression), "history": it.desc["history"]}));
@@ -660,7 +673,7 @@ pub fn run(ctx: &Ctx) -> i32 {
         let case = || json!({"spec": spec.to_json()});
         match catch(|| spec.build_bytes(&env)) {
             Ok(Ok((_, bytes))) => {
-                if oracle_true_digests("large-files", &bytes, i, &case, acc) {
+                if oracle_true_digests_built("large-files", &bytes, i, &case, acc) {
                     acc.nontrivial += 1;
                     acc.count(&format!("{:?}", spec.compression));
                     acc.sample(i, || json!({"file_bytes": spec.files[0].content.len(), "compression": format!("{:?}", spec.compression)}));
